@@ -43,6 +43,9 @@ def run(ctx):
                    "(std::vec::Vec<std::net::SocketAddr>, std::option::Option<std::net::SocketAddr>, std::option::Option<std::net::SocketAddr>)", kind=("fn",))
     r17_2(ctx, rep, sel)
     r17_1(ctx, rep, roles, sel)
+    from .. import wrappers
+    wrappers.accessors(ctx, rep, roles, "C17", "R17.3")
+    wrappers.seeds(ctx, rep, roles, "C17", "R17.4")
 
 
 def r17_2(ctx, rep, sel):
